@@ -117,6 +117,8 @@ def execute(w, op):
         try:
             exp = d.model(w, op, out)
             if exp is not None:
+                if exp.kind == "exc":
+                    w.counters["fault:" + ("iterable_fails_midway" if exp.exc_cls.__name__ == "SimFault" else "call_that_must_fail")] += 1
                 msg = mismatch(out, exp)
                 if msg:
                     w.violate(exp.owner, "refine:%s%s" % (op["op"], (":" + sub) if sub else ""), msg + " op=%r" % (op,))
